@@ -80,7 +80,7 @@ class Sim(object):
         self.preemptions = 0
         self.line_stall = None       # (probability at a pre-emption point, max seconds): stall the thread there instead of yielding
         self.stalls = 0
-        self.focus_stall = None      # (function name, probability per line, max seconds)
+        self.focus_stall = None      # (function name(s), probability per line, max seconds[, line offset in the function, max hits])
         self.focus_hits = 0
         self.stall_log = []          # (virtual start, duration, thread name) of every injected thread stall
         self.fault_counter = None    # SimNet.count, so that scheduler-level faults are reported with the network ones
@@ -390,9 +390,11 @@ class Sim(object):
             return
         self.line_count += 1
         fs = self.focus_stall
-        if fs and (code.co_name == fs[0] or (type(fs[0]) is not str and code.co_name in fs[0])) and self.line_rng.random() < fs[1]:
+        if fs and (code.co_name == fs[0] or (type(fs[0]) is not str and code.co_name in fs[0])) and \
+                (len(fs) < 4 or (lineno - code.co_firstlineno == fs[3] and self.focus_hits < fs[4])) and self.line_rng.random() < fs[1]:
             # focused stall: this run singles out one function; a thread executing it is descheduled at some of its lines
-            d = fs[2] * self.line_rng.choice((0.1, 0.3, 1.0))
+            # (or, 5-element form, at one given line of it, for the whole duration, the first few times it gets there)
+            d = fs[2] * (self.line_rng.choice((0.1, 0.3, 1.0)) if len(fs) < 4 else 1.0)
             self.focus_hits += 1         # workloads may bind an action to this moment ("shut down while _replace is between two lines")
             self.stall_log.append((self.now - T0, d, t.name))
             self.stalls += 1
